@@ -1,6 +1,7 @@
 import XV.Model.SlotSched
 import XV.Model.Pow
 import XV.Model.Plug
+import XV.Model.TdElect
 import XV.Drv.Util
 /-! driver of engine `sched` (C16); op formats are documented in go/cmd/sched/main.go -/
 namespace XV.Drv.Sched
@@ -168,6 +169,65 @@ def plugStep (ws : List String) : String :=
     | _, _, _ => "bad-op"
   | _ => "bad-op"
 
+/-! `tdel`: tdpos vote-based election (formats in go/cmd/sched/elect.go) -/
+
+def natList (s : String) : Option (List Nat) := (s.splitOn ",").mapM String.toNat?
+
+def parseVRec (s : String) : Option XV.TdElect.VRec :=
+  if s == "-" then some .absent else if s == "!" then some .corrupt
+  else ((s.splitOn "+").mapM String.toInt?).map .ballots
+
+def parseCand (s : String) : Option (Nat × XV.TdElect.VRec) :=
+  match s.splitOn "=" with
+  | [c, v] => match c.toNat?, parseVRec v with
+    | some c, some v => some (c, v)
+    | _, _ => none
+  | _ => none
+
+def parseNRec (s : String) : Option XV.TdElect.NRec :=
+  if s == "!" then some .corrupt else if s == "~" then some (.cands [])
+  else ((s.splitOn ";").mapM parseCand).bind (fun l =>
+    if (l.map (·.1)).eraseDups.length = l.length then some (.cands l) else none)
+
+def parseSnaps (s : String) : Option (List (Nat × XV.TdElect.NRec)) :=
+  if s == "-" then some [] else
+  (s.splitOn "/").mapM (fun e =>
+    match e.splitOn "@" with
+    | [h, r] => match h.toNat?, parseNRec r with
+      | some h, some r => some (h, r)
+      | _, _ => none
+    | _ => none)
+
+def parseFault (s : String) : Option XV.TdElect.Fault :=
+  if s == "-" then some .none else if s == "n" then some .nominate else if s == "s" then some .snapshot
+  else if s.startsWith "v" then ((s.drop 1).toString.toNat?).map .vote else none
+
+def tdelVerdictStr : XV.TdElect.Verdict → String
+  | .accept => "accept" | .reject => "reject" | .panic => "panic"
+
+/-- stored terms are 0 below `start`, at least 1 and non-decreasing from `start` on, and no term holds more
+blocks than it has slots -/
+def termsOk (start slots : Nat) (terms : List Nat) : Bool :=
+  (List.range terms.length).all (fun h =>
+    let t := terms[h]?.getD 0
+    if h < start then t == 0
+    else decide (t ≥ 1) && (h == start || decide (terms[h - 1]?.getD 0 ≤ t))
+      && decide ((terms.filter (· == t)).length ≤ slots))
+
+def tdelStep (ws : List String) : String :=
+  match ws with
+  | [pn, bn, start, init, terms, snaps, fault, h, term, pos, bp, prop] =>
+    match pn.toNat?, bn.toNat?, start.toNat?, natList init, natList terms, parseSnaps snaps, parseFault fault with
+    | some pn, some bn, some start, some init, some terms, some snaps, some fault =>
+      match h.toNat?, term.toNat?, pos.toNat?, bp.toNat?, prop.toNat? with
+      | some h, some term, some pos, some bp, some prop =>
+        if pn < 1 ∨ pn > 8 ∨ bn < 1 ∨ bn > 8 ∨ start < 1 ∨ terms.length < start + 1 ∨ terms.length > 200 ∨ h < 1 ∨ term < 1 ∨ pos ≥ pn ∨ bp ≥ bn
+            ∨ !termsOk start (pn * bn) terms then "bad-op" else
+        tdelVerdictStr (XV.TdElect.check ⟨start, init, pn, bn, terms, snaps⟩ fault h term pos bp prop)
+      | _, _, _, _, _ => "bad-op"
+    | _, _, _, _, _, _, _ => "bad-op"
+  | _ => "bad-op"
+
 def step (_ : Unit) (line : String) : Unit × String :=
   let ws := words line
   ((), match ws with
@@ -223,6 +283,7 @@ def step (_ : Unit) (line : String) : Unit × String :=
   | "pow" :: rest => powStep rest
   | "powf" :: rest => powfStep rest
   | "plug" :: rest => plugStep rest
+  | "tdel" :: rest => tdelStep rest
   | _ => "bad-op")
 
 def run : IO Unit := loop step ()
